@@ -427,6 +427,7 @@ fn suite_lists(out: &mut Out, thorough: bool) {
         // higher-order functions with Church arithmetic as the function argument
         run(out, "C16", "list_pair_map", &lp::map(), &[V::T(nc::succ()), pl(xs)], &pl(&xs.iter().map(|k| k + 1).collect()), &ords, "eq");
         run(out, "C16", "list_pair_foldl", &lp::foldl(), &[V::T(nc::add()), c(1), pl(xs)], &c(1 + xs.iter().sum::<usize>()), &ords, "eq");
+        run(out, "C16", "list_pair_foldl", &lp::foldl(), &[V::T(nc::sub()), c(4), pl(xs)], &c(xs.iter().fold(4usize, |acc, k| acc.saturating_sub(*k))), &ords, "eq");
         run(out, "C16", "list_pair_foldr", &lp::foldr(), &[V::T(nc::sub()), c(1), pl(xs)], &c(xs.iter().rev().fold(1usize, |acc, k| k.saturating_sub(acc))), &ords, "eq");
         run(out, "C16", "list_pair_filter", &lp::filter(), &[V::T(nc::is_zero()), pl(xs)], &pl(&xs.iter().filter(|k| **k == 0).cloned().collect()), &ords, "eq");
         run(out, "C16", "list_pair_take_while", &lp::take_while(), &[V::T(nc::is_zero()), pl(xs)], &pl(&xs.iter().take_while(|k| **k == 0).cloned().collect()), &ords, "eq");
@@ -438,6 +439,8 @@ fn suite_lists(out: &mut Out, thorough: bool) {
             let zipped = V::L("pair", xs.iter().zip(ys.iter()).map(|(a, b)| V::P(Box::new(c(*a)), Box::new(c(*b)))).collect());
             run(out, "C16", "list_pair_zip", &lp::zip(), &[pl(xs), pl(ys)], &zipped, &ords, "eq");
             run(out, "C16", "list_pair_zip_with", &lp::zip_with(), &[V::T(nc::add()), pl(xs), pl(ys)], &pl(&xs.iter().zip(ys.iter()).map(|(a, b)| a + b).collect()), &ords, "eq");
+            // a non-commutative combining function: the argument order of f and the pairing of positions matter
+            run(out, "C16", "list_pair_zip_with", &lp::zip_with(), &[V::T(nc::sub()), pl(xs), pl(ys)], &pl(&xs.iter().zip(ys.iter()).map(|(a, b)| a.saturating_sub(*b)).collect()), &ords, "eq");
         }
     }
     for k in 0..=4usize {
